@@ -3,8 +3,9 @@
     bruteForce nodes carry a cursor (firstDone, docID) living in a heap, d.simplify for Meta atoms, and the
     per-shard docMatchTreeCache (key -> node BY REFERENCE, bounded size, eviction by an arbitrary choice
     function) threaded through a HISTORY of searches on one loaded shard.
-    SEQUENTIAL histories only: the concurrent half of the property (interleavings, data races) is not
-    modelled — see C04_concurrent_partial_note in NOTES.md; a -race stress run is supporting evidence. *)
+    Sequential histories are covered in full.  The concurrent half is PARTIAL: interleavings of the loop
+    iterations of searches are modelled (theorems ..._partial below), data races and finer-grained
+    interleavings (inside a tree build, inside prepare) are not; a -race stress run is supporting evidence. *)
 From ZV Require Import Lib.Base Model.DocCache Proofs.DocCache.
 
 (** One search of the repaired code, started in ANY state reachable by searches (any cache contents that are
@@ -43,6 +44,42 @@ Proof.
 Qed.
 Print Assumptions C04_configuration_independent.
 
+(** Concurrency, PARTIAL (interleavings at loop-iteration granularity; no data races, builds atomic):
+    (a) rely/guarantee form, any number of other searches: if between the iterations of a search the rest of the
+    system transforms the shared heap in ANY way that only allocates nodes and leaves the cursors of this
+    search's own nodes alone, the search still returns exactly the matching documents. *)
+Theorem C04_interleaving_independent_partial : forall env n t,
+  (forall i h, (length h <= length (env i h)) /\
+               (forall a, In a (leaves t) -> get_cursor (env i h) a = get_cursor h a)) ->
+  forall h, (forall a, In a (leaves t) -> a < length h /\ get_cursor h a = (false, 0)) ->
+  fst (doc_loop_env env (S n) n t 0 h []) = filter (matches t) (seq 0 n).
+Proof.
+  intros env n t Henv h Hs.
+  rewrite (doc_loop_env_spec env n t Henv (S n) 0 h (false, 0) []); [now rewrite Nat.sub_0_r | exact Hs | reflexivity | lia].
+Qed.
+Print Assumptions C04_interleaving_independent_partial.
+
+(** (b) the steps of a search satisfy what the others rely on: they keep the heap's length and only move the
+    cursors of the search's own nodes — and the repaired newMatchTree gives every search its own nodes. *)
+Theorem C04_search_steps_are_private : forall t t' h d,
+  (forall a, In a (leaves t) -> a < length h) ->
+  (forall a, In a (leaves t) -> ~ In a (leaves t')) ->
+  (length h <= length (prepare h t d)) /\ (forall a, In a (leaves t') -> get_cursor (prepare h t d) a = get_cursor h a).
+Proof. exact prepare_rely_other. Qed.
+Print Assumptions C04_search_steps_are_private.
+
+(** (c) two searches on one loaded shard under EVERY schedule of their loop iterations (cache enabled or
+    not): each returns exactly what it returns alone. *)
+Theorem C04_two_searches_any_schedule_partial : forall cf s qa qb sched,
+  par_search cf s qa qb sched fresh =
+  (fst (search true cf s qa fresh), fst (search true cf s qb fresh)).
+Proof.
+  intros. rewrite (par_search_correct cf s qa qb sched fresh (cache_ok_fresh s)).
+  rewrite (proj1 (search_correct cf s qa fresh (cache_ok_fresh s))), (proj1 (search_correct cf s qb fresh (cache_ok_fresh s))).
+  reflexivity.
+Qed.
+Print Assumptions C04_two_searches_any_schedule_partial.
+
 (** The code before the repair (/repo 6b2af41): with the cache enabled the cached node keeps the cursor of the
     previous search; "meta.k" matching documents 0,1,2 of 4 returns [0;1;2] and then []. *)
 Theorem C04_history_refuted_before_fix :
@@ -62,3 +99,8 @@ Example C04_nonvacuous :
   (* the cache really holds the node after the first search *)
   length (st_cache (snd (search true wit_cf s (QMeta 1) fresh))) = 1.
 Proof. vm_compute. repeat split. Qed.
+
+Example C04_nonvacuous_interleaving :
+  par_search wit_cf wit_shard (QMeta 1) (QAnd (QMeta 1) (QAtom (fun d => Nat.eqb d 1 || Nat.eqb d 3)))
+             [true; false; false; true; true; false; true; false; true] fresh = ([0; 1; 2], [1]).
+Proof. vm_compute. reflexivity. Qed.
